@@ -18,38 +18,62 @@ warnings.filterwarnings("ignore")
 
 PROP = "C17"
 MANIFEST = {
-    "text": "Lean 4 theorems for all sizes (2-D and 3-D, any number of levels/scales/blocks): shape identity of UnetModel2d/3d "
-            "(induction on the pooling depth with the pad-by-one lemma), NormUnet (((n-1)|15)+1 proved to be the least multiple of "
-            "16 >= n; pad/unpad inverse), MWCNN (DWT/IWT/reflect-pad/crop, induction on the scales), DIDN/DUB (strided conv, "
-            "pixel-shuffle, crop), ResNet, Conv2d, Conv2dGRU; admissible sizes characterised in closed form and failure (never a "
-            "wrong size) proved below the minimum for the U-Net; unrolled networks as compositions of shape-preserving blocks with "
-            "the permute/reshape pairs. Tied to /repo by translated pad/unpad/crop arithmetic (bridge lemmas) and by comparing, "
-            "block by block, the shapes recorded by forward hooks on the real networks with the executed shape programs.",
-    "note": "Trusted: Lean kernel (+propext, Classical.choice, Quot.sound), the AST translator, torch's layer shape laws as encoded by "
-            "convOut/poolOut/convTOut (validated against torch layers on random hyper-parameters every run, not proved), forward hooks "
-            "as the observation of the real block structure. Channel counts and the batch axis are checked on the real outputs only "
-            "(oracle). 'Finite values' is a run-time check on random inputs, not a theorem. Unrolled networks are covered by the "
-            "theorem through their block schedule (hand-written per model, compared with hooks), not line by line.",
-    "technique": "Lean 4 proof (structural induction over shape programs, omega) + AST translation bridge + hook-trace differential "
-                 "correspondence + exhaustive-size oracle on the real zoo",
+    "text": "Lean 4 theorems for all sizes (2-D and 3-D, any number of levels/scales/blocks) about the FULL shape (batch, channels, "
+            "spatial...): spatial shape identity of UnetModel2d/3d (induction on the pooling depth with the pad-by-one lemma), "
+            "NormUnet (((n-1)|15)+1 proved to be the least multiple of 16 >= n; pad/unpad inverse), MWCNN (DWT/IWT/reflect-pad/crop), "
+            "DIDN/DUB (strided conv, pixel-shuffle, crop), ResNet, Conv2d, Conv2dGRU, combined with a register-machine model of the "
+            "channel axis: for ALL widths and depths every convolution sees its in_channels (filters doubling per U-Net level, "
+            "transposed conv halving, skip concatenation, DWT x4 / IWT /4, PixelShuffle /4, the c*num_dubs concatenation of DIDN, "
+            "residual sums), the output has out_channels, the batch axis is carried to every hook, and the spatial and channel "
+            "programs emit at the same hooks. Minimum sizes characterised in closed form for U-Net, NormUnet, 3-D U-Nets (some axis "
+            ">= 2^(L+1) after padding), MWCNN, DUB (>= 2), DIDN (>= 3); ResNet/Conv/GRU have none; failure (never a wrong size) proved "
+            "below the minimum for U-Net 2-D/3-D, NormUnet 2-D/3-D, MWCNN (success iff every axis admissible), DUB, DIDN, "
+            "instance-normalised GRU. Unrolled networks: compositions of shape-preserving blocks; every (argument permute, result permute) pair "
+            "around a denoiser call is proved a round trip from a decidable inverse check. Tied to /repo by translated pad/unpad/crop "
+            "arithmetic, by spatial AND channel programs read from the AST of every forward on instantiated modules (bridge: equal to "
+            "the hand-written parametric programs), by block schedules and permute pairs read from the AST of every unrolled forward, "
+            "and by comparing, hook by hook, the full shapes recorded on the real networks with the executed programs.",
+    "note": "Trusted: Lean kernel (+propext, Classical.choice, Quot.sound), the AST translators (pad/crop kernels, forward shape "
+            "programs, channel programs, schedule scanner), torch's layer shape laws as encoded by convOut/poolOut/convTOut "
+            "(validated against torch layers on random hyper-parameters every run, not proved), torch's channel rules as encoded by "
+            "the register machine (conv/batch-norm check in_channels, cat adds, + needs equal counts; validated hook by hook), "
+            "forward hooks as the observation of the real block structure. 'Finite values' is a run-time check on random inputs, "
+            "not a theorem. Conv2dGRU and RIMInit/RecurrentInit channel programs are checked per instance (bridge: the program read "
+            "from forward runs, ends with out_channels, leaves no register), not for all widths; MultiDomainUnet2d has a spatial "
+            "program only. The glue of the unrolled networks between the denoiser calls (FFT, coil sums, buffer concatenations) is "
+            "covered through the block schedule, the permute-pair table and the full shapes of every denoiser call, not line by line. "
+            "Two known findings (MRIVarSplitNet normunet variants).",
+    "technique": "Lean 4 proof (structural induction over shape programs, Hoare-style calculus for the channel register machine, "
+                 "omega, decide) + AST translation bridges + hook-trace differential correspondence + exhaustive-size oracle on the "
+                 "real zoo (190 entries)",
 }
 TRUSTED = [
     "Lean 4.33 kernel; axioms ⊆ {propext, Classical.choice, Quot.sound}",
-    "harness/translate recipes c17 (pad/unpad/crop/pow2/IWT/GRU kernels, F.pad order and mode tables, pooling literals)",
+    "harness/translate recipes c17 (pad/unpad/crop/pow2/IWT/GRU kernels, F.pad order and mode tables, pooling literals), "
+    "c17_forward (spatial programs), c17_channels (channel programs: token tracking of torch.cat / + operands), c17_sched "
+    "(block schedules, argument/result permutes)",
     "torch layer shape laws (Conv/ConvTranspose/AvgPool/PixelShuffle/reflect-pad limits) as encoded in Model/Shapes.lean — "
     "compared with real torch layers on random hyper-parameters every run",
-    "forward hooks on the real modules observe every top-level block output",
-    "per-model block schedules of the unrolled networks (harness/props/zoo_common.schedule) — compared with hooks",
+    "torch channel rules as encoded in Model/ShapesChan.lean (conv / batch norm require their in_channels, cat adds, element-wise "
+    "ops require equal counts, IWT floors, PixelShuffle must divide) — compared hook by hook with the real networks every run",
+    "forward hooks on the real modules observe every top-level block output (full shapes)",
+    "per-model block schedules of the unrolled networks are READ from each forward (c17_sched) and compared with the hand-written "
+    "Shapes.Sched in the bridge and with hooks on the real calls",
 ]
 ASSUMPTIONS = [
     "finite outputs are asserted on seeded random inputs (run-time check, not proof)",
     "layer hyper-parameters are isotropic (same kernel/stride/padding on every spatial axis); the harness refuses otherwise",
-    "admissible size = the architecture's own minimum (model-characterised; below it the real network is checked to raise)",
+    "admissible size = the architecture's own minimum (model-characterised; below it the real network is checked to raise, "
+    "every kind of entry, never to return a wrong size)",
+    "tiny channel widths (pairwise different where the architecture allows) stand for all widths in the bridge; the theorems are "
+    "for all widths",
 ]
-RULE = ("zoo of real networks at tiny widths (every regulariser / initialisation option); sizes: odd, even, non-square, "
-        "non-power-of-two, the architecture minimum and below it; batch 1..3, coils 1..5. non-trivial = an odd or non-square or "
-        "non-power-of-two size with some axis >= 2 (or an error case below the minimum); distinct = distinct (entry, size, batch, "
-        "coils) / protocol line")
+RULE = ("zoo of real networks at tiny widths (every regulariser / initialisation / sharing / call option; building blocks; engine "
+        "paths in the thorough tier); sizes: odd, even, prime, non-square, non-power-of-two, 1 along an axis, the architecture "
+        "minimum and below it, up to 48 (exhaustive in the thorough tier) and a few above; batch 1..3 (explicit batch 1 vs > 1), "
+        "coils 1..5 (explicit single coil), non-contiguous inputs, repeated calls on one instance. non-trivial = an odd or "
+        "non-square or non-power-of-two size with some axis >= 2 (or an error case below the minimum); distinct = distinct (entry, "
+        "size, batch, coils) / protocol line")
 
 # keys of violations of the property on the CURRENT tree (reported as findings; see the final report)
 PENDING_FINDINGS = [
